@@ -6,6 +6,6 @@ cd /verif || exit 1
 props="$*"; [ -z "$props" ] && props=$(seq -w 1 20 | sed 's/^/C/')
 rm -rf /tmp/coqchk-tree; cp -a coq /tmp/coqchk-tree; mkdir -p work/coqchk
 cd /tmp/coqchk-tree
-for p in $props; do echo $p; done | xargs -P ${COQCHK_JOBS:-3} -I{} sh -c 'timeout 5000 coqchk -silent -o -Q theories Verif Verif.Props.{} > /verif/work/coqchk/{}.log 2>&1; echo {} rc=$?'
+for p in $props; do echo $p; done | xargs -P ${COQCHK_JOBS:-3} -I{} sh -c 'timeout ${COQCHK_TIMEOUT:-5000} coqchk -silent -o -Q theories Verif Verif.Props.{} > /verif/work/coqchk/{}.log 2>&1; echo {} rc=$?'
 cd /verif; rm -rf /tmp/coqchk-tree
 /venv/bin/python harness/coqchk_summary.py
